@@ -102,7 +102,7 @@ theorem nameLoop_safe (msg : Bytes) (currOff newOff ptr : Nat) (name : Bytes) :
     intro hn hl
     apply ih hn
     simp only [List.length_append, List.length_cons, List.length_nil, List.length_take, List.length_drop]
-    simp only [nameCap, Facts.name_lenLimit] at hcap
+    simp only [nameCap] at hcap
     omega
   case case7 => intros; simp
   case case8 => intros; simp
